@@ -162,6 +162,9 @@ def txt_case(cid: str, d: Dict[Any, Any]) -> dict:
 
 
 def run(ctx: Ctx) -> None:
+    # the operations documented as thread-safe, under every single pre-emption by the other thread (props/threadsfam.py, Trace_Threads.tla)
+    from props import threadsfam
+    threadsfam.run(ctx, 'C19')
     rng = random.Random(ctx.seed * 7919 + 19)
     names = enum_names(ctx, rng)
     n_enum = len(names)
